@@ -100,7 +100,10 @@ def draw_func_stalls(rng, funcs=None):
 def install_func_stalls(sim, stalls):
     for st in stalls or ():
         if st.get("after") is not None:
-            sim.func_stalls.setdefault(st["func"], []).append([None, st["line"], st["dur"], st["after"] + st.get("t0", 0.0)])
+            ent = [None, st["line"], st["dur"], st["after"] + st.get("t0", 0.0)]
+            if st.get("nth", 1) > 1:
+                ent.append(st["nth"])
+            sim.func_stalls.setdefault(st["func"], []).append(ent)
         else:
             sim.func_stalls.setdefault(st["func"], []).append([st["call"], st["line"], st["dur"]])
 
